@@ -18,7 +18,7 @@ RULE = ("Cases: file content = lines joined by '\\n' with optional final '\\n'; 
 EXPLANATION = ""
 ASSUMPTIONS = ["PYTHONUTF8=1 pins the default text encoding to UTF-8 (set by ./check)",
                "the memory-mapped variants are not given an empty file (the OS cannot map one; stated in the property)"]
-FLOORS = {"cr": (0.2, None), "multi-byte": (0.25, None), "interleaved-iteration": (0.064, None), "custom-index": (0.111, None), "long-line": (0.02, None)}
+FLOORS = {"cr": (0.2, None), "multi-byte": (0.25, None), "interleaved-iteration": (0.03, None), "custom-index": (0.111, None), "long-line": (0.02, None)}
 SHARDS = {"quick": 12, "thorough": 14}
 
 OPS = ["open_it", "adv", "idx", "adv", "slice", "adv", "sel", "len", "list", "open_it", "adv", "idx", "adv", "adv", "reopen", "idx"]
@@ -74,6 +74,30 @@ def run_case(case, ctx):
                     sel.append(pool.pop(p % len(pool)))
             arg = [offs[i] for i in sel]
             ctx.label("custom-index")
+        if case.get("index_via_file") and isrc in ("file", "subset", "perm") and arg is not None:
+            # the index comes from an index file whose path has been used before, for another selection of the lines of the same
+            # file (an object was built from it and read): every object honours the index file as it is when the object is built
+            real = arg if isinstance(arg, list) else list(offs)
+            path = sc.path("lines.idx")
+            decoy = list(reversed(offs)) if len(offs) >= 2 else [0] * len(offs)
+            with open(path, "w") as fh:
+                fh.write("".join("%d\n" % x for x in decoy))
+            try:
+                g = cls(src, FG.TextRecord, path) if rec else cls(src, path)
+                with g:
+                    if len(g) != len(decoy):
+                        ctx.fail("line-file/len/wrong", "index file with %d offsets gives len %d" % (len(decoy), len(g)))
+                    if decoy:
+                        g[0]
+            except Violation:
+                raise
+            except Exception as e:  # noqa
+                ctx.fail("line-file/init/exception-%s" % type(e).__name__, "index file: %r" % (e,))
+                return
+            with open(path, "w") as fh:
+                fh.write("".join("%d\n" % x for x in real))
+            arg = path
+            ctx.label("index-file-path-reused")
         exp = [ref[i] for i in sel]
         if rec:
             exp = [FG.TextRecord(x) for x in exp]
@@ -217,7 +241,7 @@ def strategies(tier):
         "variant": st.sampled_from(list(FG.VARIANTS)),
         "lines": st.one_of(st.lists(FG.line_strategy(), max_size=2), st.lists(FG.line_strategy(), min_size=2, max_size=7), st.lists(FG.line_strategy(), min_size=2, max_size=7)),
         "final_nl": st.booleans(),
-        "index": st.sampled_from(["built", "built", "list", "file", "subset", "perm"]),
+        "index": st.sampled_from(["built", "built", "list", "file", "subset", "perm"]), "index_via_file": st.booleans(),
         "picks": st.lists(st.integers(0, 7), min_size=1, max_size=7),
         "prog": st.one_of(codes(1, 8), codes(8, 30), codes(10, 30)).map(lambda cs: [dec(c) for c in cs]),
     })
